@@ -13,7 +13,7 @@ CHECKS = {
             'every transition is checked against an independent Cholesky/Gram reference. Right level: the property is anchored in '
             'mutable cached state (vects/origin/reciprocal cache).', '2 C01',
             'cell menu of 22-25 cells (incl. two 1e-6 near-duplicates and three single-right-angle cells) and 3 origins; tolerance 1e-8 relative; numpy linear algebra trusted as oracle'),
-    'C02': (EX, 'bounded-exhaustive enumeration (every element of cells x 8 pbc x point pairs x call shapes executed on the real dvect/dmag/displacement) against an exhaustive lattice-search oracle',
+    'C02': (EX, 'bounded-exhaustive enumeration (every element of cells x 8 pbc x point pairs x call shapes executed on the real dvect/dmag/displacement) against an exhaustive lattice-search oracle; every ordered pair of cells on one live Box/System changed in place between calls',
             'Every pair of a point lattice (faces, edges, corners, interior) in 8 cells under all 8 periodicity settings and all broadcast shapes is executed; '
             'membership in the 27-candidate set, minimality, dmag=|dvect| and the true-nearest-image clause (lattice search with proven radius) are checked on each. '
             'Right level: a stateless numerical kernel whose only quantifier is over inputs - complete enumeration of a face/edge/tilt-covering alphabet.', '2 C02',
@@ -62,11 +62,11 @@ CHECKS = {
             'The working-unit table is global mutable state: all histories of depth <= 2 (3 in thorough over a reduced alphabet) of reset_units calls are replayed and the table compared with the table after the last call alone; '
             'every expression tree up to the depth bound x parenthesisations x whitespace renderings is parsed by the real code and compared with direct evaluation, in every configuration. Right level: history-dependent global state + a finite grammar.', '2 C09',
             'expression depth bound (<= 4 leaves quick); factors outside float range skipped and counted; unit names limited to a 6-name menu'),
-    'C11': (EX, 'bounded-exhaustive enumeration of stiffness tensors (15 coupling patterns, crystal-system grids, 33 isotropic name pairs) x 42 exact rotations x 21 strains, all ordered rotation pairs for composition',
+    'C11': (EX, 'bounded-exhaustive enumeration of stiffness tensors (15 coupling patterns, crystal-system grids, 33 isotropic name pairs) x 42 exact rotations x 21 strains, all ordered rotation pairs for composition; plus explicit-state BFS over read/write histories on one live ElasticConstants object (state = tensor last written + byte-exact internal state)',
             'Every representation round trip, symmetry, C:S identity, point-group invariance and rotation group law is executed on every tensor/rotation of the menu against index-loop oracles written from the definitions. '
             'Right level: algebraic identities over a finite generating set (21 strains determine the quadratic form; group elements enumerated completely).', '2 C11',
             'tolerance 1e-9 max|C| (the class zeroes below that itself); menu values only'),
-    'C12': (EX, 'bounded-exhaustive enumeration of materials x Burgers vectors x orientations x (m,n) choices, each solution evaluated on a complete polar grid of field points and array shapes',
+    'C12': (EX, 'bounded-exhaustive enumeration of materials x Burgers vectors (incl. scale factors 1e-10..1e7) x orientations x (m,n) choices, each solution evaluated on a complete polar grid of field points and array shapes; plus explicit-state BFS over solve()/read histories on one live solution object (state = problem last solved + byte-exact internal state)',
             'Every combination is solved by the real Stroh/isotropic solver and checked for Burgers jump, strain = sym grad u, stress = C:strain, div stress = 0, 1/r homogeneity, K properties, covariance and the isotropic limit. '
             'Right level: stateless solver, quantifier over inputs; finite-difference clauses hold to a stated tolerance on the grid.', '2 C12',
             'finite differences h=1e-5 r with 1e-7 tolerance; grid points keep >= 7 degrees from the cut'),
@@ -128,7 +128,9 @@ def main():
                      'reference models) and bounded-exhaustive case enumerator over a 16-process pool; python'}],
         'checks': checks,
         'not_applicable': na,
-        'notes': 'All checks run the real implementation (overlay built from /repo working tree). known_findings.txt lists repaired defects.',
+        'notes': 'All 20 properties are claimed; all checks run the real implementation (overlay copy of the /repo working tree with the Cython extensions rebuilt from the current .pyx). '
+                 'known_findings.txt lists 50 repaired defects (fixed:, one unguarded fix: commit each in /repo) and 2 known findings (C10, C18) that the checks report as KNOWN-FINDING lines. '
+                 'A hang of the code under test is reported as a violation by a no-progress watchdog (VERIF_HANG_S, default 900 s). DESIGN.md sections 7-9 describe what was built, the triage of every alarm and the detection evidence (267 hand-written mutants, 110+ seeded changes by independent sub-agents).',
     }
     with open(os.path.join(VERIF, 'MANIFEST.json'), 'w') as f:
         json.dump(m, f, indent=1)
